@@ -31,7 +31,7 @@ func genC08Action(dt *drv.T, i int, label *int) *Action {
 		return &Stmt{Op: "draw", Label: fmt.Sprintf("d%d", *label), Gen: GenGenSpec(dt, GenCfg{Depth: 1, SmallInts: true, RejectHeavy: chance(dt, "rej", 25)})}
 	}
 	skip := func() *Stmt { return &Stmt{Op: "skip", Kind: pick(dt, "skipkind", skipKinds...)} }
-	switch pick(dt, "ashape", "draw", "draw", "plain", "skipfirst", "skipafter", "condskip", "fatal", "nonfatal", "panic", "nonfatal+skip", "alwaysfail-draw") {
+	switch pick(dt, "ashape", "draw", "draw", "plain", "skipfirst", "skipafter", "condskip", "fatal", "nonfatal", "panic", "nonfatal+skip", "alwaysfail-draw", "fatal-recovered") {
 	case "draw":
 		a.Body = append(a.Body, draw())
 		if chance(dt, "draw2", 30) {
@@ -45,6 +45,10 @@ func genC08Action(dt *drv.T, i int, label *int) *Action {
 		a.Body = append(a.Body, draw(), &Stmt{Op: "if", Cond: genCond(dt), Body: []*Stmt{skip()}})
 	case "fatal":
 		a.Body = append(a.Body, draw(), &Stmt{Op: "if", Cond: genCond(dt), Body: []*Stmt{genSig(dt, fatalKinds)}})
+	case "fatal-recovered":
+		// Fatal / Fatalf / FailNow raised under a recover of the code under test (a safety net around a callback): the
+		// action goes on and returns normally, but the test case has been falsified and nothing may run after it
+		a.Body = append(a.Body, draw(), &Stmt{Op: "if", Cond: genCond(dt), Body: []*Stmt{{Op: "recovered", Body: []*Stmt{genSig(dt, fatalKinds)}}}}, &Stmt{Op: "log", N: 2})
 	case "nonfatal":
 		a.Body = append(a.Body, draw(), &Stmt{Op: "if", Cond: genCond(dt), Body: []*Stmt{genSig(dt, nonFatalKinds)}}, &Stmt{Op: "log", N: 2})
 	case "panic":
@@ -90,7 +94,9 @@ func (c08) Gen(dt *drv.T, c *Ctx) any {
 	}
 	if chance(dt, "hasinv", 70) {
 		rs.HasInv = true
-		switch pick(dt, "invshape", "empty", "log", "failcond", "failcond", "nonfatalcond") {
+		switch pick(dt, "invshape", "empty", "log", "failcond", "failcond", "nonfatalcond", "recoveredcond") {
+		case "recoveredcond":
+			rs.Inv = []*Stmt{{Op: "if", Cond: genCond(dt), Body: []*Stmt{{Op: "recovered", Body: []*Stmt{genSig(dt, fatalKinds)}}}}}
 		case "log":
 			rs.Inv = []*Stmt{{Op: "log", N: 3}}
 		case "failcond":
